@@ -60,11 +60,27 @@ LimbOrder == (W = 4 \/ W = 8) =>
                ((n < m) <=> \E q \in 0..3 : /\ 2 * q + 1 < W /\ Limb(n, q) < Limb(m, q)
                                             /\ \A r \in 0..3 : (r > q /\ 2 * r + 1 < W) => Limb(n, r) = Limb(m, r))
 
-\* event ids: the first 8 bytes are BE4(epoch) o BE4(lamport), i.e. the 8-byte big-endian form of epoch*2^32+lamport;
-\* byte order of two ids that differ in (epoch, lamport) is the order of (epoch, lamport)
+(* ---- 64-bit values and event ids, by halves ------------------------------------------------------ *)
+(* Z3 does not finish the 8-byte obligations stated on one 64-bit variable, so they are split:      *)
+(* every 64-bit value is Key(e, l) of two 32-bit halves (Halves); its 8 bytes are the 4 bytes of e     *)
+(* followed by the 4 bytes of l (SplitDigits); round trip and order of the 8 bytes then follow from   *)
+(* the statements about the halves (RoundTrip8, Order8), which mention 32-bit digits only.            *)
+(* The same three facts are C32's event-id clause: an id starts with BE4(epoch) o BE4(lamport).       *)
 Key(e, l) == e * 4294967296 + l
-IdKeyBytes == \A k \in 0..3 : Digit(Key(e1, l1), k) = Digit(l1, k) /\ Digit(Key(e1, l1), k + 4) = Digit(e1, k)
-IdOrder == (W = 8) => ((e1 < e2 \/ (e1 = e2 /\ l1 < l2)) <=> BytesLess(Key(e1, l1), Key(e2, l2)))
+Halves == (W = 8) => /\ n = Key(n \div 4294967296, n % 4294967296)
+                     /\ n \div 4294967296 <= 4294967295 /\ n % 4294967296 <= 4294967295
+SplitDigits == \A k \in 0..3 : Digit(Key(e1, l1), k) = Digit(l1, k) /\ Digit(Key(e1, l1), k + 4) = Digit(e1, k)
+Sum4(x) == Digit(x, 0) + Digit(x, 1) * 256 + Digit(x, 2) * 65536 + Digit(x, 3) * 16777216
+RoundTrip8 == Sum4(l1) + 4294967296 * Sum4(e1) = Key(e1, l1)
+BL4(x, y) == \E k \in 0..3 : Digit(x, k) < Digit(y, k) /\ \A j \in 0..3 : j > k => Digit(x, j) = Digit(y, j)
+EQ4(x, y) == \A k \in 0..3 : Digit(x, k) = Digit(y, k)
+\* byte order of BE4(e1) o BE4(l1) against BE4(e2) o BE4(l2)
+Bytes8Less == BL4(e1, e2) \/ (EQ4(e1, e2) /\ BL4(l1, l2))
+Order8 == /\ (Key(e1, l1) < Key(e2, l2)) <=> (e1 < e2 \/ (e1 = e2 /\ l1 < l2))      \* value order = (epoch, lamport) order
+          /\ (e1 < e2 \/ (e1 = e2 /\ l1 < l2)) <=> Bytes8Less                        \* = byte order of the 8 bytes
+\* one obligation per width for the quick tier
+All24 == RoundTrip /\ OrderPreserved /\ Injective /\ LimbWise /\ LimbOrder
+All8 == RoundTrip8 /\ Order8
 
 \* deliberately false (must be refuted): little-endian bytes do not order like the values
 LEBytesLess(x, y) == \E k \in Idx : /\ k < W /\ Digit(x, k) < Digit(y, k)
